@@ -18,7 +18,18 @@
 #include <fcppt/container/make_move_range.hpp>
 #include <fcppt/container/pop_back.hpp>
 #include <fcppt/container/pop_front.hpp>
+#include <fcppt/optional/alternative.hpp>
+#include <fcppt/optional/apply.hpp>
+#include <fcppt/optional/bind.hpp>
+#include <fcppt/optional/cat.hpp>
+#include <fcppt/optional/combine.hpp>
+#include <fcppt/optional/filter.hpp>
+#include <fcppt/optional/from.hpp>
+#include <fcppt/optional/join.hpp>
+#include <fcppt/optional/map.hpp>
 #include <fcppt/optional/object.hpp>
+#include <fcppt/optional/sequence.hpp>
+#include <fcppt/optional/to_container.hpp>
 
 #include <algorithm>
 #include <deque>
@@ -227,8 +238,6 @@ std::vector<T> mk_vec(arg_t const &_a)
   v.reserve(32); // headroom: a join into an rvalue first argument must not reallocate the caller's objects
   for (int const i : _a.ids)
     v.emplace_back(i);
-  for (auto &e : v)
-    e.orig = true;
   return v;
 }
 
@@ -238,8 +247,6 @@ std::deque<T> mk_deque(arg_t const &_a)
   std::deque<T> v;
   for (int const i : _a.ids)
     v.emplace_back(i);
-  for (auto &e : v)
-    e.orig = true;
   return v;
 }
 
@@ -250,9 +257,38 @@ std::map<int, T> mk_map(arg_t const &_a)
   int k = 0;
   for (int const i : _a.ids)
     m.emplace(k++, i);
-  for (auto &e : m)
-    e.second.orig = true;
   return m;
+}
+
+// mark the element objects of a finished argument as the caller's (done in place, after the last move of the container)
+template <bool C>
+void mark(tok_t<C> &_t)
+{
+  _t.orig = true;
+}
+template <typename T>
+void mark(fcppt::optional::object<T> &_o)
+{
+  if (_o.has_value())
+    mark(_o.get_unsafe());
+}
+template <typename T>
+void mark(std::vector<T> &_v)
+{
+  for (auto &e : _v)
+    mark(e);
+}
+template <typename T>
+void mark(std::deque<T> &_v)
+{
+  for (auto &e : _v)
+    mark(e);
+}
+template <typename T>
+void mark(std::map<int, T> &_m)
+{
+  for (auto &e : _m)
+    mark(e.second);
 }
 
 // Calls f with the container in the value category named by cat. LvOk = false: the lvalue instantiation needs a copy
@@ -304,6 +340,7 @@ std::string op_algmap(line_t const &L)
 {
   need(L.args.size() == 1 && L.par.empty());
   auto v{mk_vec<T>(L.args[0])};
+  mark(v);
   g_log.clear();
   std::vector<T> const r{with_cat<true>(L.cat(0), v, [](auto &&c) { return fcppt::algorithm::map<std::vector<T>>(FWD(c), thru{}); })};
   event_log const log{g_log};
@@ -315,8 +352,9 @@ std::string op_fold(line_t const &L, bool const _brk)
 {
   need(L.args.size() == 2 && L.cat(1) == 'r' && L.n(1) == 1 && L.par.size() == (_brk ? 1U : 0U));
   auto v{mk_vec<T>(L.args[0])};
+  mark(v);
   acc<T> st{T{L.args[1].ids[0]}, {}};
-  st.marker.orig = true;
+  mark(st.marker);
   g_log.clear();
   acc<T> const r{with_cat<true>(
       L.cat(0),
@@ -356,6 +394,7 @@ std::string op_mapcat(line_t const &L)
 {
   need(L.args.size() == 1 && L.par.size() == L.n(0));
   auto v{mk_vec<T>(L.args[0])};
+  mark(v);
   std::size_t idx{0};
   g_log.clear();
   std::vector<T> const r{with_cat<true>(
@@ -385,6 +424,7 @@ std::string op_mapopt(line_t const &L)
 {
   need(L.args.size() == 1 && L.par.size() == L.n(0));
   auto v{mk_vec<T>(L.args[0])};
+  mark(v);
   std::size_t idx{0};
   g_log.clear();
   std::vector<T> const r{with_cat<true>(
@@ -411,6 +451,7 @@ std::string op_reverse(line_t const &L)
 {
   need(L.args.size() == 1 && L.par.empty());
   auto v{mk_vec<T>(L.args[0])};
+  mark(v);
   g_log.clear();
   std::vector<T> const r{with_cat<T::copyable>(L.cat(0), v, [](auto &&c) { return fcppt::algorithm::reverse(FWD(c)); })};
   event_log const log{g_log};
@@ -422,9 +463,12 @@ std::string op_join(line_t const &L, std::size_t const _n)
 {
   need(L.args.size() == _n && L.par.empty());
   auto a{mk_vec<T>(L.args[0])};
+  mark(a);
   auto b{mk_vec<T>(L.args[1])};
+  mark(b);
   arg_t const none{'r', {}};
   auto c{mk_vec<T>(_n == 3 ? L.args[2] : none)};
+  mark(c);
   g_log.clear();
   std::vector<T> const r{with_cat<T::copyable>(
       L.cat(0),
@@ -461,12 +505,14 @@ std::string op_pop(line_t const &L, bool const _back)
         if (_back)
         {
           auto v{mk_vec<T>(L.args[0])};
+          mark(v);
           g_log.clear();
           fcppt::optional::object<T> x{fcppt::container::pop_back(v)};
           arg = slots(v);
           return x;
         }
         auto v{mk_deque<T>(L.args[0])};
+        mark(v);
         g_log.clear();
         fcppt::optional::object<T> x{fcppt::container::pop_front(v)};
         arg = slots(v);
@@ -484,6 +530,7 @@ std::string op_mrmap(line_t const &L)
 {
   need(L.args.size() == 1 && L.cat(0) == 'r' && L.par.empty());
   auto v{mk_vec<T>(L.args[0])};
+  mark(v);
   g_log.clear();
   std::vector<T> const r{fcppt::algorithm::map<std::vector<T>>(fcppt::container::make_move_range(std::move(v)), thru{})};
   event_log const log{g_log};
@@ -495,6 +542,7 @@ std::string op_moveclear(line_t const &L)
 {
   need(L.args.size() == 1 && L.cat(0) == 'i' && L.par.empty());
   auto v{mk_vec<T>(L.args[0])};
+  mark(v);
   g_log.clear();
   std::vector<T> const r{fcppt::move_clear(v)};
   event_log const log{g_log};
@@ -506,6 +554,7 @@ std::string op_goi(line_t const &L, bool const _with_result)
 {
   need(L.args.size() == 1 && L.cat(0) == 'i' && L.par.size() == 1 && L.par[0] >= 0 && static_cast<std::size_t>(L.par[0]) <= L.n(0));
   auto m{mk_map<T>(L.args[0])};
+  mark(m);
   auto const create{[](int) { return T{1000}; }};
   g_log.clear();
   std::string tag;
@@ -521,6 +570,229 @@ std::string op_goi(line_t const &L, bool const _with_result)
   }
   event_log const log{g_log};
   return finish(tag, "-", {map_slots(m)}, log);
+}
+
+// ---------------------------------------------------------------- optional
+
+template <typename T>
+using opt = fcppt::optional::object<T>;
+
+template <typename T>
+opt<T> mk_opt(arg_t const &_a)
+{
+  need(_a.ids.size() <= 1);
+  if (_a.ids.empty())
+    return opt<T>{};
+  return opt<T>{T{_a.ids[0]}};
+}
+
+template <typename T>
+std::string opt_slots(opt<T> const &_o)
+{
+  slots_t s;
+  if (_o.has_value())
+    s.add(_o.get_unsafe());
+  return s.str();
+}
+
+template <typename T>
+std::string opt_tag(opt<T> const &_o)
+{
+  return _o.has_value() ? "J" : "N";
+}
+
+// vector of optionals: the present entries (mask bit 1) carry the identities in order
+template <typename T>
+std::vector<opt<T>> mk_optvec(arg_t const &_a, std::vector<int> const &_mask)
+{
+  std::vector<opt<T>> v;
+  v.reserve(32);
+  std::size_t k{0};
+  for (int const m : _mask)
+  {
+    need(m == 0 || m == 1);
+    if (m == 1)
+    {
+      need(k < _a.ids.size());
+      v.emplace_back(T{_a.ids[k++]});
+    }
+    else
+      v.emplace_back();
+  }
+  need(k == _a.ids.size());
+  return v;
+}
+
+template <typename T>
+std::string optvec_slots(std::vector<opt<T>> const &_v)
+{
+  slots_t s;
+  for (auto const &o : _v)
+    if (o.has_value())
+      s.add(o.get_unsafe());
+  return s.str();
+}
+
+// reads its second argument, moves / derives the first
+struct first_of_two
+{
+  template <typename A, typename B>
+  std::remove_cvref_t<A> operator()(A &&_a, B &&_b) const
+  {
+    _b.read();
+    return thru{}(std::forward<A>(_a));
+  }
+};
+
+template <typename T>
+std::string op_opt1(std::string const &_op, line_t const &L)
+{
+  need(L.args.size() == 1);
+  auto o{mk_opt<T>(L.args[0])};
+  mark(o);
+  auto const par{[&](std::size_t i) { need(L.par.size() > i && (L.par[i] == 0 || L.par[i] == 1)); return L.par[i] == 1; }};
+  g_log.clear();
+  if (_op == "optmap")
+  {
+    need(L.par.empty());
+    opt<T> const r{with_cat<true>(L.cat(0), o, [](auto &&x) { return fcppt::optional::map(FWD(x), thru{}); })};
+    event_log const log{g_log};
+    return finish(opt_tag(r), opt_slots(r), {opt_slots(o)}, log);
+  }
+  if (_op == "optbind")
+  {
+    need(L.par.size() == 1);
+    bool const keep{par(0)};
+    opt<T> const r{with_cat<true>(
+        L.cat(0),
+        o,
+        [keep](auto &&x)
+        {
+          return fcppt::optional::bind(
+              FWD(x),
+              [keep](auto &&e)
+              {
+                e.read();
+                return keep ? opt<T>{thru{}(FWD(e))} : opt<T>{};
+              });
+        })};
+    event_log const log{g_log};
+    return finish(opt_tag(r), opt_slots(r), {opt_slots(o)}, log);
+  }
+  if (_op == "optfrom")
+  {
+    need(L.par.empty());
+    slots_t s;
+    {
+      T const r{with_cat<T::copyable>(L.cat(0), o, [](auto &&x) { return fcppt::optional::from(FWD(x), [] { return T{1000}; }); })};
+      event_log const log{g_log};
+      s.add(r);
+      return finish("-", s.str(), {opt_slots(o)}, log);
+    }
+  }
+  if (_op == "optalt")
+  {
+    need(L.par.size() == 1);
+    bool const has{par(0)};
+    opt<T> const r{with_cat<T::copyable>(
+        L.cat(0), o, [has](auto &&x) { return fcppt::optional::alternative(FWD(x), [has] { return has ? opt<T>{T{1000}} : opt<T>{}; }); })};
+    event_log const log{g_log};
+    return finish(opt_tag(r), opt_slots(r), {opt_slots(o)}, log);
+  }
+  if (_op == "optfilter")
+  {
+    need(L.par.size() == 1);
+    bool const keep{par(0)};
+    opt<T> const r{with_cat<T::copyable>(
+        L.cat(0),
+        o,
+        [keep](auto &&x)
+        {
+          return fcppt::optional::filter(
+              FWD(x),
+              [keep](T const &e)
+              {
+                e.read();
+                return keep;
+              });
+        })};
+    event_log const log{g_log};
+    return finish(opt_tag(r), opt_slots(r), {opt_slots(o)}, log);
+  }
+  if (_op == "opttocont")
+  {
+    need(L.par.empty());
+    // the const& instantiation does not compile (container::make binds fcppt::reference<T> to the argument), see notes/C05.md
+    need(L.cat(0) != 'c');
+    std::vector<T> const r{L.cat(0) == 'r' ? fcppt::optional::to_container<std::vector<T>>(std::move(o))
+                                           : fcppt::optional::to_container<std::vector<T>>(o)};
+    event_log const log{g_log};
+    return finish("-", slots(r), {opt_slots(o)}, log);
+  }
+  throw bad_op{};
+}
+
+template <typename T>
+std::string op_optjoin(line_t const &L)
+{
+  need(L.args.size() == 1 && L.par.size() == 1 && (L.par[0] == 0 || L.par[0] == 1) && L.n(0) <= 1 && (L.n(0) == 0 || L.par[0] == 1));
+  opt<opt<T>> o{L.par[0] == 1 ? opt<opt<T>>{mk_opt<T>(L.args[0])} : opt<opt<T>>{}};
+  mark(o);
+  g_log.clear();
+  opt<T> const r{with_cat<T::copyable>(L.cat(0), o, [](auto &&x) { return fcppt::optional::join(FWD(x)); })};
+  event_log const log{g_log};
+  slots_t s;
+  if (o.has_value() && o.get_unsafe().has_value())
+    s.add(o.get_unsafe().get_unsafe());
+  return finish(opt_tag(r), opt_slots(r), {s.str()}, log);
+}
+
+template <typename T>
+std::string op_opt2(std::string const &_op, line_t const &L)
+{
+  need(L.args.size() == 2 && L.par.empty());
+  auto a{mk_opt<T>(L.args[0])};
+  mark(a);
+  auto b{mk_opt<T>(L.args[1])};
+  mark(b);
+  g_log.clear();
+  bool const comb{_op == "optcombine"};
+  opt<T> const r{with_cat<T::copyable>(
+      L.cat(0),
+      a,
+      [&](auto &&x)
+      {
+        return with_cat<T::copyable>(
+            L.cat(1),
+            b,
+            [&](auto &&y)
+            {
+              if (comb)
+                return fcppt::optional::combine(FWD(x), FWD(y), first_of_two{});
+              return fcppt::optional::apply(first_of_two{}, FWD(x), FWD(y));
+            });
+      })};
+  event_log const log{g_log};
+  return finish(opt_tag(r), opt_slots(r), {opt_slots(a), opt_slots(b)}, log);
+}
+
+template <typename T>
+std::string op_optvec(std::string const &_op, line_t const &L)
+{
+  need(L.args.size() == 1);
+  auto v{mk_optvec<T>(L.args[0], L.par)};
+  mark(v);
+  g_log.clear();
+  if (_op == "optseq")
+  {
+    opt<std::vector<T>> const r{
+        with_cat<T::copyable>(L.cat(0), v, [](auto &&x) { return fcppt::optional::sequence<std::vector<T>>(FWD(x)); })};
+    event_log const log{g_log};
+    return finish(opt_tag(r), r.has_value() ? slots(r.get_unsafe()) : "-", {optvec_slots(v)}, log);
+  }
+  std::vector<T> const r{with_cat<T::copyable>(L.cat(0), v, [](auto &&x) { return fcppt::optional::cat<std::vector<T>>(FWD(x)); })};
+  event_log const log{g_log};
+  return finish("-", slots(r), {optvec_slots(v)}, log);
 }
 
 // ---------------------------------------------------------------- dispatch
@@ -556,6 +828,14 @@ std::string dispatch(std::string const &_op, line_t const &L)
     return op_goi<T>(L, false);
   if (_op == "goiwr")
     return op_goi<T>(L, true);
+  if (_op == "optmap" || _op == "optbind" || _op == "optfrom" || _op == "optalt" || _op == "optfilter" || _op == "opttocont")
+    return op_opt1<T>(_op, L);
+  if (_op == "optjoin")
+    return op_optjoin<T>(L);
+  if (_op == "optcombine" || _op == "optapply2")
+    return op_opt2<T>(_op, L);
+  if (_op == "optseq" || _op == "optcat")
+    return op_optvec<T>(_op, L);
   throw bad_op{};
 }
 
